@@ -35,6 +35,42 @@ func genC11(t *rapid.T) any {
 			}
 		}
 	}
+	if rapid.IntRange(0, 5).Draw(t, "oddelement") == 0 {
+		// an element that is not an object (scalar, NULL, inner array) after some objects, in a table or in a
+		// nested array: queries over it may fail part-way through - and leave the input as it was
+		odd := rapid.SampledFrom([]any{7.0, "x", nil, []any{1.0}, true}).Draw(t, "oddvalue")
+		var arrays []string
+		for _, k := range keysOf(c.W.Doc) {
+			if a, ok := c.W.Doc[k].([]any); ok && len(a) > 0 {
+				arrays = append(arrays, k)
+			}
+		}
+		if len(arrays) > 0 {
+			k := rapid.SampledFrom(arrays).Draw(t, "oddtable")
+			a := c.W.Doc[k].([]any)
+			if rapid.Bool().Draw(t, "oddnested") {
+				// into the first nested array of objects found in the rows
+				for _, r := range a {
+					rm, _ := r.(map[string]any)
+					done := false
+					for _, nk := range keysOf(rm) {
+						if na, ok := rm[nk].([]any); ok && len(na) > 0 {
+							if _, isObj := na[0].(map[string]any); isObj {
+								rm[nk] = append(append([]any{}, na...), odd)
+								done = true
+								break
+							}
+						}
+					}
+					if done {
+						break
+					}
+				}
+			} else {
+				c.W.Doc[k] = append(append([]any{}, a...), odd)
+			}
+		}
+	}
 	return c
 }
 
